@@ -86,6 +86,14 @@ add("C19", "model_checking",
     COMMON_NOTE + "States are keyed by the FIFO content, which determines all futures of a bytes.Buffer as far as the property observes it.",
     "explicit-state BFS over operation histories of the real object against a FIFO reference model", "E2", "5/C19")
 
+add("C15", "exploration",
+    "The whole interval of value lengths 0..3x4096+1 is swept for WriteStringNocopy/WriteBinaryNocopy with a nil and a recording direct writer and buffers with exact and spare capacity; all sequences of <= 3 calls over boundary lengths; Base with every combination of small/threshold-1/threshold/threshold+1 for its three strings, a map key and a map value (4^5 + nil/empty map), BaseResp, ApplicationException. Oracle: an independent splice of the linear bytes with the recorded (slice, remainCap) pairs must equal the copying path; direct writes happen iff length >= threshold and a writer is attached, alias the caller's value, and returned n + direct bytes == advertised length; the repository's NetpollDirectWriter is cross-checked.",
+    COMMON_NOTE, "full interval sweep + bounded-exhaustive combinations against an independent splice oracle", "E6", "5/C15")
+add("C16", "exploration",
+    "For every value-length class across the span allocator's size classes a run of consecutive decodes long enough to wrap the 1 MiB span (thorough: twice), all results retained, plus all ordered pairs of classes alternating, on 8 entry points and both span-cache settings; afterwards the input is overwritten, reader buffers are released and scribbled by a pool co-tenant, and every retained value must be unchanged; the capacity ranges of all returned values are checked pairwise disjoint and disjoint from the input by a sorted address sweep, and appending to / overwriting returned slices must leave siblings and input intact.",
+    COMMON_NOTE + "Strings may share memory with other strings (the Go runtime interns 1-byte strings); only mutable ranges are required to be disjoint.",
+    "bounded-exhaustive enumeration of decode histories per allocator size class with aliasing oracle (address sweep + mutation)", "E6+E4", "5/C16")
+
 NOT_YET = {}
 
 def main():
